@@ -29,23 +29,68 @@ func init() {
 }
 
 // lruLockProbe: single goroutine; inside each method (via the hook) ask which lock mode is held.
+// One public call may reach several access points (a method calling another locked method while it
+// still holds its own lock): the first hook event of a call gives the method's own mode, the further
+// ones are reported as nested acquisitions (op -> list of "<inner op>:<mode held when reached>").
 func lruLockProbe(args []string) error {
 	c := valid.NewLRU(2)
 	table := map[string]string{}
+	nested := map[string][]string{}
+	cur := ""
+	first := true
 	valid.VerifLRUHook = func(l *valid.LRUCache, op string) {
-		table[op] = l.VerifLockState()
+		st := l.VerifLockState()
+		if first {
+			first = false
+			table[cur] = st
+			if op != cur {
+				nested[cur] = append(nested[cur], op+":"+st)
+			}
+			return
+		}
+		nested[cur] = append(nested[cur], op+":"+st)
 	}
-	c.Store("a", "a=1")
-	c.Load("a")
-	c.Len()
-	c.Dump()
-	c.Delete("a")
+	call := func(name string, f func()) {
+		cur = name
+		first = true
+		done := make(chan struct{})
+		go func() { defer close(done); f() }()
+		select {
+		case <-done:
+		case <-time.After(10 * time.Second):
+			// a method that re-acquires its own lock exclusively never returns even single-threaded
+			table[name+"!selfdeadlock"] = "1"
+		}
+	}
+	call("Store", func() { c.Store("a", "a=1") })
+	call("Load", func() { c.Load("a") })
+	call("Len", func() { c.Len() })
+	call("Dump", func() { c.Dump() })
+	call("Delete", func() { c.Delete("a") })
 	valid.VerifLRUHook = nil
 	after := c.VerifLockState()
-	out := map[string]interface{}{"table": table, "after": after}
+	out := map[string]interface{}{"table": table, "after": after, "nested": nested}
 	b, _ := json.Marshal(out)
 	fmt.Println(string(b))
 	return nil
+}
+
+// blockedOnCacheLock reports whether some goroutine is parked inside the cache's RWMutex (used to tell a real
+// deadlock from a slow machine when a watchdog expires).
+func blockedOnCacheLock() (bool, string) {
+	buf := make([]byte, 1<<20)
+	n := runtime.Stack(buf, true)
+	st := string(buf[:n])
+	for _, g := range strings.Split(st, "\n\n") {
+		if strings.Contains(g, "sync.(*RWMutex)") && strings.Contains(g, "valid.(*LRUCache)") {
+			lines := strings.Split(g, "\n")
+			if len(lines) > 12 {
+				lines = lines[:12]
+			}
+			return true, strings.Join(lines, " | ")
+		}
+	}
+	return false, ""
 }
 
 type concEvent struct {
@@ -180,7 +225,10 @@ func oneHistory(rng *rand.Rand, h, cap, procs, nops, keys, vals int) (evs []conc
 	select {
 	case <-done:
 	case <-time.After(20 * time.Second):
-		return nil, "deadlock: history did not finish in 20s"
+		if blocked, where := blockedOnCacheLock(); blocked {
+			return nil, "deadlock: history did not finish in 20s; goroutine parked in the cache lock: " + where
+		}
+		return nil, "stalled: history did not finish in 20s but no goroutine is parked in the cache lock"
 	}
 	evs = append(evs, concEvent{Seq: 0, E: "reset", Cap: cap, P: "none", Op: "none", K: "none", V: "none", Res: "none", Dump: [][2]string{}, H: h})
 	for _, pe := range per {
@@ -238,6 +286,11 @@ func lruConcRecord(args []string) error {
 		evs, pan := oneHistory(rng, h, cap, procs, nops, 2+rng.Intn(*keys-1), 2)
 		if pan != "" {
 			ws[h%*shards].put(concEvent{E: "panic", Cap: cap, P: "none", Op: "none", K: "none", V: "none", Res: pan, Dump: [][2]string{}, H: h})
+			if strings.HasPrefix(pan, "deadlock") || strings.HasPrefix(pan, "stalled") {
+				fmt.Fprintf(os.Stderr, "aborted after history %d: %s\n", h, pan)
+				fmt.Fprintf(os.Stderr, "histories=%d overlapping=%d\n", h+1, overlaps)
+				return nil // leaked goroutines hold the old cache only
+			}
 			continue
 		}
 		// count real overlap: an inv that follows another process's inv before that one's ret
@@ -445,6 +498,12 @@ func lruHammer(args []string) error {
 		var stop int32
 		var wg sync.WaitGroup
 		var cnt int64
+		if *pair != "" { // targeted run: make hits (and therefore recency updates) the common case
+			for i := 1; i <= cap; i++ {
+				k := "k" + strconv.Itoa(i)
+				c.Store(k, k+"=v")
+			}
+		}
 		for p := 0; p < *procs; p++ {
 			wg.Add(1)
 			go func(p int) {
@@ -482,8 +541,12 @@ func lruHammer(args []string) error {
 		go func() { wg.Wait(); close(done) }()
 		select {
 		case <-done:
-		case <-time.After(30 * time.Second):
-			fmt.Println("HAMMER-FAIL deadlock: goroutines did not stop")
+		case <-time.After(15 * time.Second):
+			if blocked, where := blockedOnCacheLock(); blocked {
+				fmt.Println("HAMMER-FAIL deadlock: goroutines did not stop; parked in the cache lock: " + where)
+			} else {
+				fmt.Println("HAMMER-STALL goroutines did not stop but none is parked in the cache lock")
+			}
 			return nil
 		}
 		if n := c.Len(); n < 0 || n > cap {
